@@ -238,7 +238,7 @@ pub fn check_query(ctx: &Ctx, ids: &WorldIds, b64: &str, decl: &str, params: &[P
         (Ok(ts), QExpect::Matches(list)) => {
             ctx.scan_unsafe(ts, &program());
             let mut got: Vec<(String, Vec<String>)> = Vec::new();
-            let enabled_idx: Vec<usize> = params.iter().enumerate().filter(|(_, p)| p.cfg.as_ref().map(|c| truth(c)).unwrap_or(true)).map(|(i, _)| i).collect();
+            let enabled_idx: Vec<usize> = params.iter().enumerate().filter(|(_, p)| cfg_on(&p.cfg, truth)).map(|(i, _)| i).collect();
             for b in analyze::blocks(ts) {
                 let tys: Vec<String> = enabled_idx.iter().filter_map(|i| b.params.get(*i).map(|p| p.1.clone())).collect();
                 let entry = (b.arch.clone(), tys);
@@ -369,7 +369,7 @@ fn run_c05(thorough: bool, threads: usize, ctx: &Ctx) -> serde_json::Value {
 const PREDS: [&str; 3] = ["p0", "p1", "p2"];
 
 fn twin_of(archs: &[RArch], truth: &dyn Fn(&str) -> bool) -> Vec<RArch> {
-    let on = |c: &Option<String>| c.as_ref().map(|p| truth(p)).unwrap_or(true);
+    let on = |c: &Option<String>| cfg_on(c, truth);
     archs.iter().filter(|a| on(&a.cfg)).map(|a| RArch { name: a.name.clone(), id: a.id, cfg: None, comps: a.comps.iter().filter(|c| on(&c.cfg)).map(|c| RComp { name: c.name.clone(), id: c.id, cfg: None }).collect() }).collect()
 }
 
@@ -377,8 +377,10 @@ fn run_c16(thorough: bool, threads: usize, ctx: &Ctx) -> serde_json::Value {
     let always = |_: &str| true;
     // ---- (a) declarations: 6 decoration sites x {none, p0, p1, p2} x all truth vectors; two id variants ----
     let choices: [Option<&str>; 4] = [None, Some("p0"), Some("p1"), Some("p2")];
+    // two sites (the first archetype and its second component) may also carry TWO cfg attributes, in either order
+    let double: [Option<&str>; 10] = [None, Some("p0"), Some("p1"), Some("p2"), Some("p0 && p1"), Some("p1 && p0"), Some("p0 && p2"), Some("p2 && p0"), Some("p1 && p2"), Some("p2 && p1")];
     let mut decos: Vec<[Option<&str>; 6]> = Vec::new();
-    for a in choices { for b in choices { for c in choices { for d in choices { for e in choices { for f in choices {
+    for a in double { for b in choices { for c in double { for d in choices { for e in choices { for f in choices {
         decos.push([a, b, c, d, e, f]);
     }}}}}}
     let variants: usize = if thorough { 3 } else { 2 };
@@ -392,7 +394,7 @@ fn run_c16(thorough: bool, threads: usize, ctx: &Ctx) -> serde_json::Value {
                 RArch { name: "A0".into(), id: None, cfg: s(dc[0]), comps: vec![RComp { name: "Ca".into(), id: None, cfg: s(dc[1]) }, RComp { name: "Cb".into(), id: if variant == 2 { Some(0) } else { None }, cfg: s(dc[2]) }] },
                 RArch { name: "A1".into(), id: if variant == 1 { Some(0) } else { None }, cfg: s(dc[3]), comps: vec![RComp { name: "Cb".into(), id: None, cfg: s(dc[4]) }, RComp { name: "Cc".into(), id: if variant == 2 { Some(0) } else { None }, cfg: s(dc[5]) }] },
             ];
-            let used: Vec<&str> = PREDS.iter().cloned().filter(|p| dc.iter().any(|d| *d == Some(*p))).collect();
+            let used: Vec<&str> = PREDS.iter().cloned().filter(|p| dc.iter().any(|d| d.map(|s| s.split(" && ").any(|x| x == *p)).unwrap_or(false))).collect();
             for tv in 0..(1u32 << used.len()) {
                 let truth = |p: &str| used.iter().position(|u| *u == p).map(|i| tv & (1 << i) != 0).unwrap_or(true);
                 let twin = twin_of(&archs, &truth);
@@ -438,7 +440,7 @@ fn run_c16(thorough: bool, threads: usize, ctx: &Ctx) -> serde_json::Value {
                 let tys = tys.clone();
                 tys.into_iter().flat_map(move |(ty, m)| {
                     let p = p.clone();
-                    [None, Some("p0"), Some("p1"), Some("p2")].into_iter().map(move |c| { let mut q = p.clone(); q.push(Param { ty: ty.clone(), is_mut: m, cfg: c.map(|x| x.to_string()) }); q })
+                    [None, Some("p0"), Some("p1"), Some("p2"), Some("p0 && p1"), Some("p1 && p0"), Some("p0 && p2"), Some("p2 && p0"), Some("p1 && p2"), Some("p2 && p1")].into_iter().map(move |c| { let mut q = p.clone(); q.push(Param { ty: ty.clone(), is_mut: m, cfg: c.map(|x| x.to_string()) }); q })
                 })
             }).collect();
         }
@@ -446,7 +448,7 @@ fn run_c16(thorough: bool, threads: usize, ctx: &Ctx) -> serde_json::Value {
     }
     let query_count = AtomicU64::new(0);
     par(threads, &plists, ctx, |params| {
-        let used: Vec<&str> = PREDS.iter().cloned().filter(|p| params.iter().any(|q| q.cfg.as_deref() == Some(*p))).collect();
+        let used: Vec<&str> = PREDS.iter().cloned().filter(|p| params.iter().any(|q| cfg_preds(&q.cfg).iter().any(|x| x == p))).collect();
         for tv in 0..(1u32 << used.len()) {
             let truth = |p: &str| used.iter().position(|u| *u == p).map(|i| tv & (1 << i) != 0).unwrap_or(true);
             for mac in MACS {
@@ -457,7 +459,7 @@ fn run_c16(thorough: bool, threads: usize, ctx: &Ctx) -> serde_json::Value {
                     continue; // F7: rejected outright, nothing to compare
                 }
                 // differential: strip what rustc would strip and compare with the expansion of the twin query
-                let twin: Vec<(usize, &Param)> = params.iter().enumerate().filter(|(_, p)| p.cfg.as_ref().map(|c| truth(c)).unwrap_or(true)).collect();
+                let twin: Vec<(usize, &Param)> = params.iter().enumerate().filter(|(_, p)| cfg_on(&p.cfg, &truth)).collect();
                 let twin_text = twin.iter().map(|(i, p)| Param { ty: p.ty.clone(), is_mut: p.is_mut, cfg: None }.text(&format!("p{}", i))).collect::<Vec<_>>().join(", ");
                 let real = query_tokens(mac, &b64, &params_text(params), &truth).map(|ts| analyze::strip_cfg(&ts, &truth));
                 let tw = query_tokens(mac, &b64, &twin_text, &always).map(|ts| analyze::strip_cfg(&ts, &always));
@@ -473,7 +475,7 @@ fn run_c16(thorough: bool, threads: usize, ctx: &Ctx) -> serde_json::Value {
     });
     ctx.sample(serde_json::json!({"declaration": "#[cfg(p0)] ecs_archetype!(A0, Ca, #[cfg(p1)] Cb); #[archetype_id(0)] ecs_archetype!(A1, #[cfg(p1)] Cb, Cc);", "truth": {"p0": false, "p1": true}, "twin": "#[archetype_id(0)] ecs_archetype!(A1, Cb, Cc);"}));
     ctx.sample(serde_json::json!({"query": "ecs_iter!(world, |#[cfg(p0)] p0: &Ca, p1: &mut Cb, #[cfg(p1)] p2: &Entity<A1>| ..)", "truth": {"p0": true, "p1": false}, "twin": "|p0: &Ca, p1: &mut Cb|"}));
-    serde_json::json!({"decoration_sites": 6, "predicates": 3, "declaration_variants": variants, "decorated_declarations_x_truth": decl_count.load(Ordering::Relaxed), "decorated_queries_x_truth_x_macro": query_count.load(Ordering::Relaxed), "parameter_lists": plists.len()})
+    serde_json::json!({"decoration_sites": 6, "predicates": 3, "attributes_per_site": "0..1 (0..2, both orders, on two declaration sites and on every query parameter)", "declaration_variants": variants, "decorated_declarations_x_truth": decl_count.load(Ordering::Relaxed), "decorated_queries_x_truth_x_macro": query_count.load(Ordering::Relaxed), "parameter_lists": plists.len()})
 }
 
 fn arg(args: &[String], name: &str) -> Option<String> {
